@@ -274,6 +274,9 @@ SIMPLE = [
     (r'<(usize|u32|u64) as Ord>::max$', 'M.ord_max'),
     (r'<(usize|u32|u64) as Ord>::min$', 'M.ord_min'),
     (r'<(usize|u32|u64) as Ord>::cmp$', 'M.usize_cmp'),
+    (r'<&?(usize|u32|u64) as PartialOrd>::partial_cmp$', 'M.usize_partial_cmp'),
+    (r'Ordering::reverse$', 'M.ordering_reverse'),
+    (r'Ordering::then$', 'M.ordering_then'),
     (r'std::cmp::max::<.*>$', 'M.ord_max'),
     (r'std::cmp::min::<.*>$', 'M.ord_min'),
     (r'<(usize|u32) as PartialEq>::ne$', 'M.usize_ne'),
@@ -330,6 +333,12 @@ def lookup(callee, gen):
         if c is None:
             return None
         return 'M.%s_retain(%s, %s)' % (m.group(1).lower(), c[0], c[1])
+    m = re.match(r'std::slice::<impl \[.*\]>::(sort_by|sort_unstable_by|sort_by_key|sort_unstable_by_key|sort_by_cached_key)::<', s)
+    if m:
+        c = _closure(gen, s)
+        if c is None:
+            return None
+        return 'M.slice_%s(%s, %s)' % ('sort_by_key' if 'key' in m.group(1) else 'sort_by', c[0], c[1])
     if re.match(r'Entry::<.*>::or_insert_with::<', s):
         c = _closure(gen, s)
         if c is None:
